@@ -60,15 +60,20 @@ fn main() {
     // the laws on large operands (sizes 33 .. 129): identities, naturality of the symmetry on all pairs, and
     // associativity on all composable triples of one numbering per shape
     let sizes: Vec<usize> = if quick { vec![33, 65] } else { vec![33, 64, 65, 129] };
-    let big: Vec<_> = ohmc::props::structured::shapes_at(&sizes, false).into_iter().map(|x| x.1).collect();
+    let big: Vec<_> = ohmc::props::structured::shapes_at_labelled(&sizes, false).into_iter().map(|x| x.1).collect();
     ctx.run_slice(Slice::new(format!("identity-large[sizes {:?}: {} diagrams]", sizes, big.len()), big.len() as u64, |i, loc| check_identity::<B>(&big[i as usize], loc)));
     let bigp: Vec<_> = big.iter().step_by(3).cloned().collect();
     let nbp = bigp.len() as u64;
     ctx.run_slice(Slice::new(format!("twist-natural-large[{}^2]", nbp), nbp * nbp, |i, loc| check_twist_natural::<B>(&bigp[(i / nbp) as usize], &bigp[(i % nbp) as usize], loc)));
     let bigt: Vec<_> = big.iter().step_by(5).filter(|f| f.s.len() == 1 && f.t.len() == 1).cloned().collect();
     let nbt = bigt.len() as u64;
-    ctx.run_slice(Slice::new(format!("assoc-large[{}^3 triples of 1 -> 1 diagrams]", nbt), nbt * nbt * nbt, |i, loc| {
-        check_assoc_triple::<B>(&bigt[(i / (nbt * nbt)) as usize], &bigt[((i / nbt) % nbt) as usize], &bigt[(i % nbt) as usize], loc)
+    ctx.run_slice(Slice::new(format!("assoc-large[the composable ones of {}^3 triples of 1 -> 1 diagrams]", nbt), nbt * nbt * nbt, |i, loc| {
+        let (f, g, h) = (&bigt[(i / (nbt * nbt)) as usize], &bigt[((i / nbt) % nbt) as usize], &bigt[(i % nbt) as usize]);
+        // the law speaks about composable triples only (C01 covers the refusal of the others)
+        let ty = |x: &POpen<u8, u8>, l: &[usize]| l.iter().map(|&v| x.nodes[v]).collect::<Vec<u8>>();
+        if ty(f, &f.t) == ty(g, &g.s) && ty(g, &g.t) == ty(h, &h.s) {
+            check_assoc_triple::<B>(f, g, h, loc)
+        }
     }));
     // the laws in the lax representation: composites carry the pending unifications recorded by compose into
     // further operations (no quotient in between); all triples of the universe
